@@ -1136,6 +1136,31 @@ func (w *World) Do(line string) {
 				}
 			}
 		}
+	case "holdreg":
+		// reverse-tunnel handlers stop between the registration in the set of all tunnels and the
+		// one in the per-key set, until "releasereg"
+		w.mu.Lock()
+		w.regGate = make(chan struct{})
+		w.mu.Unlock()
+		grpctunnel.VerifSetYieldHook(func(tag string) {
+			if tag != "handler.registering" {
+				return
+			}
+			w.mu.Lock()
+			g := w.regGate
+			w.mu.Unlock()
+			if g != nil {
+				<-g
+			}
+		})
+	case "releasereg":
+		w.mu.Lock()
+		if w.regGate != nil {
+			close(w.regGate)
+			w.regGate = nil
+		}
+		w.mu.Unlock()
+		grpctunnel.VerifSetYieldHook(nil)
 	case "ready":
 		if w.handler != nil {
 			via := m["via"]
@@ -1219,6 +1244,13 @@ func (w *World) probe(full bool) {
 // Teardown releases everything the harness itself holds so that only leaked
 // library goroutines can remain in the bubble.
 func (w *World) Teardown() {
+	w.mu.Lock()
+	if w.regGate != nil {
+		close(w.regGate)
+		w.regGate = nil
+	}
+	w.mu.Unlock()
+	grpctunnel.VerifSetYieldHook(nil)
 	for _, c := range w.waitCancels {
 		c()
 	}
